@@ -5,7 +5,8 @@ alphabet of analysis operations chosen to collide on every piece of process-glob
 code (unique-name counter, class-level exact_func_moments flag, settings module, lru caches keyed on
 values, `_b`/`_inv` symbol names, exceptions mid-normalisation).  Each history runs in ONE fresh
 interpreter; the canonical result of its last operation must equal the result of that operation in a
-fresh process.  Plus: all 6 orders of 3 goals for each program of c20ops.PERM_PROGS, and PYTHONHASHSEED in 0..K for every operation.
+fresh process.  Plus: all 6 orders of 3 goals for each program of c20ops.PERM_PROGS, every ordered pair of benchmark files handled by ONE
+CLI action object (as `polar.py A.prob B.prob ...` does) for six argument sets, and PYTHONHASHSEED in 0..K for every operation.
 """
 import itertools
 import json
@@ -27,7 +28,7 @@ ASSUMPTIONS = [
 
 ROOT = os.path.dirname(os.path.dirname(os.path.dirname(os.path.abspath(__file__))))
 ALPHABET = ["finA", "finB", "finC", "finD", "trig_exact", "trig_rounded", "trig_lag", "cat", "cat_transformed", "ifs", "inv", "inv9", "fail", "sens"]
-from ..c20ops import PERM_PROGS
+from ..c20ops import PERM_PROGS, CLI_GROUPS
 
 PERMS = ["perm_%s_%d" % (k, i) for k in PERM_PROGS for i in range(6)]
 
@@ -67,6 +68,12 @@ def cases(tier, seed):
         if p.endswith("_0"):
             continue
         out.append({"input": {"kind": "perm", "history": [p], "hashseed": 0}})
+    # the CLI's loop over several benchmark files with ONE action object: output for the last file == output for it alone
+    for a, fs in CLI_GROUPS.items():
+        for f in fs:
+            for g in fs:
+                if g != f:
+                    out.append({"input": {"kind": "cli_pair", "history": ["cli_%s_%s_then_%s" % (a, g, f)], "hashseed": 0}})
     for a, b in itertools.product(ALPHABET, repeat=2):
         out.append({"input": {"kind": "history", "history": [a, b], "hashseed": 0}})
     if tier != "quick":
@@ -93,6 +100,9 @@ def run_case(case):
     res = {"status": "ok", "stats": stats, "violations": []}
     last = hist[-1]
     ref_op = last.rsplit("_", 1)[0] + "_0" if inp["kind"] == "perm" else last
+    if inp["kind"] == "cli_pair":
+        head, f = last.rsplit("_then_", 1)
+        ref_op = head.rsplit("_", 1)[0] + "_" + f
     base = baseline(ref_op)
     got = run_history(hist, inp["hashseed"])
     if base is None or got is None:
@@ -100,7 +110,7 @@ def run_case(case):
         res["status"] = "refusal"
         return res
     got = got[-1]
-    if "exception" not in got and len(hist) >= 2:
+    if "exception" not in got and (len(hist) >= 2 or inp["kind"] == "cli_pair"):
         stats["distinct_nontrivial"] = 1
     res["sample"] = {"history": hist, "hashseed": inp["hashseed"], "last_result": json.dumps(got)[:300]}
     if got != base:
